@@ -48,6 +48,11 @@ def make_jobs(tier, seed, want):
         for kw in kws:
             if (r * c >= 12 and kw) or (gen == "gen_prim" and kw.get("accessible_cells") is None and kw):
                 continue
+            # a randomized stack on 9 or more cells has an execution tree far beyond any time budget unless the tree is
+            # capped by accessible_cells (measured: the uncapped 3x3 jobs did not finish in 55 minutes): outside the claim
+            ac = kw.get("accessible_cells")
+            if (kw.get("randomized_stack") or gen == "gen_prim") and r * c >= 9 and not (isinstance(ac, int) and not isinstance(ac, bool) and ac <= 5):
+                continue
             if r * c >= 16:
                 for a in range(3):
                     for b in range(3):
@@ -139,12 +144,12 @@ META = dict(
               "(accessible_cells in {None,0,1,2,rc-1,rc,rc+1,0.0,0.5,1.0}, max_tree_depth in {None,0,1,2,3,0.5,1.0}, do_forks, randomized_stack, "
               "start_coord) one-at-a-time plus seeded combinations; gen_dfs 3x3; percolation 3x3 (p in {0.4,0,1}); Wilson on <=2x2 with total "
               "walk bound K=8 and 2x3/3x2 with K=7",
-        thorough="as quick plus gen_dfs 3x4/4x3/4x4, gen_prim 3x3, percolation 3x4, dfs_percolation 3x3, Wilson 2x2 K=12, 2x3/3x2 K=10, 3x3 K=9",
+        thorough="as quick plus gen_dfs 3x4/4x3/4x4, gen_prim / randomized_stack on 3x3 only with accessible_cells <= 5, percolation 3x4, dfs_percolation 3x3, Wilson 2x2 K=12, 2x3/3x2 K=10, 3x3 K=9",
     ),
     degenerate=dict(gen_dfs="each path is one concrete random execution (draws are concretised when used as indices): exhaustive "
                             "enumeration of the RNG decision tree within the bound; percolation variants keep the edge bits symbolic"),
     stubs=G.STUBS,
-    outside=["grids beyond the bound", "kwargs off the grid", "Wilson executions with more than K walk steps (counted as truncated)",
+    outside=["grids beyond the bound", "kwargs off the grid", "randomized stack (gen_prim, randomized_stack=True) on 9 or more cells without a small accessible_cells cap", "Wilson executions with more than K walk steps (counted as truncated)",
              "grid_shape passed as a tuple to gen_wilson (TypeError; documented type is an array)", "lattice_dim != 2"],
     assumptions=["draw contracts: random.choice/randint and np.random.randint/choice return any value in range, np.random.rand any real in [0,1)"],
 )
